@@ -60,8 +60,11 @@ def tree_files(root, exts=None):
 def repo_hash():
     files = tree_files(os.path.join(REPO, "sbepp")) + tree_files(os.path.join(REPO, "sbeppc")) + \
         tree_files(os.path.join(REPO, "cmake")) + [os.path.join(REPO, "CMakeLists.txt")]
-    files += [os.path.join(ENGINE, f) for f in ("ir2c.py", "verif_rt.h", "harness_rt.h", "pipeline.py", "native_rt.c", "native_handler.cpp")]
     return file_hash(files)
+
+
+def engine_hash():
+    return file_hash([os.path.join(ENGINE, f) for f in ("ir2c.py", "verif_rt.h", "native_rt.c", "native_handler.cpp")])[:12]
 
 
 _slot_lock = threading.Lock()
@@ -160,7 +163,7 @@ class Slot:
     def lower(self, name, cpp_text, std="17", mode="unchecked", incs=(), exceptions=False, extra=(), extern_map=None):
         """wrapper TU -> IR -> C.  returns dict(c=path, h=path, cpp=path, info=..., inlined=[...])"""
         flags = self.lower_flags(std, mode, exceptions, list(extra) + ["-I" + i for i in incs])
-        key = hashlib.sha256((cpp_text + "\0" + " ".join(flags) + json.dumps(extern_map or {}, sort_keys=True)).encode()).hexdigest()[:16]
+        key = hashlib.sha256((cpp_text + "\0" + " ".join(flags) + json.dumps(extern_map or {}, sort_keys=True) + engine_hash()).encode()).hexdigest()[:16]
         base = self.path("units", "%s-%s" % (re.sub(r"\W", "_", name), key), "x")[:-2]
         os.makedirs(base, exist_ok=True)
         meta = os.path.join(base, "meta.json")
@@ -238,10 +241,8 @@ def _loops(files, defines, cwd):
 def run_cbmc(h, witness=False, trace=False, backend=None, cap=60):
     files = [os.path.join(h.dir, "harness.c")] + [u["c"] for u in h.units]
     defines = list(h.defines) + (["WITNESS"] if witness else []) + (["VERIF_TRACK"] if h.track else [])
-    loops, err = _loops(files, defines, h.dir)
-    if err and not loops and "error" in err.lower():
-        return {"verdict": "ERROR", "detail": err[-3000:], "s": 0}
-    uset = ["%s:%d" % (l[0], BIG_UNWIND) for l in loops if re.match(r"(harness|verif_|ref_|env_)", l[3])]
+    uset = ["harness.%d:%d" % (k, BIG_UNWIND) for k in range(48)] + ["%s.0:%d" % (f, BIG_UNWIND) for f in ("verif_fill", "verif_copy", "ref_rd")]
+    uset += ["%s:%d" % (l, BIG_UNWIND) for l in h.meta.get("big_loops", [])]
     cmd = ["cbmc"] + files + ["--function", "harness", "--unwind", str(h.unwind)] + BASE_FLAGS + ["-I", ENGINE]
     if uset: cmd += ["--unwindset", ",".join(uset)]
     cmd += ["-D" + d for d in defines]
@@ -305,17 +306,16 @@ def extract_inputs(raw_json):
             if failed is None:
                 failed = {"id": r.get("property"), "text": r.get("description")}
                 for st in r["trace"]:
-                    if st.get("stepType") != "assignment": continue
+                    if st.get("stepType") != "assignment" or st.get("hidden"): continue
                     lhs = st.get("lhs", ""); v = st.get("value", {})
-                    if "binary" in v and re.match(r"^[A-Za-z_]\w*(\[\d+l?\])?$", lhs):
-                        m = re.match(r"^(\w+)\[(\d+)l?\]$", lhs)
-                        key = "%s[%s]" % (m.group(1), m.group(2)) if m else lhs
-                        if key not in vals or st.get("function", "").startswith(("harness", "verif_fill")) or True:
-                            vals[key] = int(v["binary"], 2)
-                    elif v.get("name") == "array" and re.match(r"^[A-Za-z_]\w*$", lhs):
-                        for k, el in enumerate(v.get("elements", [])):
-                            ev = el.get("value", {})
-                            if "binary" in ev: vals["%s[%d]" % (lhs, k)] = int(ev["binary"], 2)
+                    fn = (st.get("sourceLocation") or {}).get("function")
+                    if "binary" not in v: continue
+                    m = re.match(r"^(\w+)\[(\d+)l?\]$", lhs)
+                    if m and fn == "verif_fill":
+                        # harness input arrays are filled by verif_fill(); later writes (by the code under test) are not inputs
+                        vals.setdefault("%s[%s]" % (m.group(1), m.group(2)), int(v["binary"], 2))
+                    elif re.match(r"^[A-Za-z_]\w*$", lhs) and fn == "harness" and st.get("assignmentType") == "variable":
+                        vals.setdefault(lhs, int(v["binary"], 2))   # first assignment = the nondet input
     return vals, failed
 
 
@@ -341,28 +341,29 @@ class Runner:
         self.prepare(h)
         cap = h.cap or (60 if self.tier == "quick" else 600)
         h.cap = cap
-        r = portfolio(h)
+        r = portfolio(h, witness=h.witness)
         out = {"harness": h.name, "desc": h.desc, "bounds": h.bounds, "unwind": h.unwind, "verdict": r["verdict"], "s": r["s"],
                "backend": r.get("backend"), "rss_kb": r.get("rss_kb", 0), "checked_properties": r.get("checked_properties", 0),
                "tried": r.get("tried"), "meta": h.meta, "expect": h.expect}
         q = len(r.get("tried") or [1]); s = sum(t["s"] for t in r.get("tried") or [])
-        if r["verdict"] == "REFUTED":
+        if h.witness and r["verdict"] in ("PROVED", "REFUTED"):
+            # one query decides both: every real assertion must hold and the final witness assertion must fail (reachability)
+            fw = r.get("failed") or []
+            real = [f for f in fw if "witness: end of harness reachable" not in f["text"]]
+            if r["verdict"] == "PROVED":
+                out["verdict"] = "ERROR"; out["detail"] = "witness assertion not refuted: harness is vacuous (assumptions unsatisfiable or end unreachable)"
+            elif not real:
+                out["verdict"] = "PROVED"; out["witness"] = "reached"
+            else:
+                out["verdict"] = "REFUTED"; r["failed"] = real
+                if len(real) == len(fw): out["witness_note"] = "witness point not reached"
+        if out["verdict"] == "REFUTED":
             out["failed"] = r.get("failed")
             tr = run_cbmc(h, trace=True, backend=r["backend"], cap=cap * 2)
             q += 1; s += tr["s"]
             vals, failed = extract_inputs(tr.get("raw", ""))
             out["inputs"] = vals; out["first_failed"] = failed
             out["dir"] = h.dir
-        elif r["verdict"] == "PROVED" and h.witness:
-            w = portfolio(h, witness=True)
-            q += len(w.get("tried") or [1]); s += sum(t["s"] for t in w.get("tried") or [])
-            fw = [f for f in (w.get("failed") or [])]
-            if w["verdict"] != "REFUTED":
-                out["verdict"] = "ERROR"; out["detail"] = "witness twin not refuted (%s): harness is vacuous or inconclusive" % w["verdict"]
-            elif any("witness" not in f["text"] for f in fw):
-                out["verdict"] = "ERROR"; out["detail"] = "witness twin fails a real assertion: %s" % fw
-            else:
-                out["witness"] = "reached"
         elif r["verdict"] in ("ERROR", "INCONCLUSIVE"):
             out["detail"] = r.get("detail", "")
         with self.lock:
@@ -393,8 +394,8 @@ def native_replay(slot, h, inputs, units, compiler="g++", sanitize=True, witness
     rc, so, se, dt = sh([cc, "-O0", "-g", "-w", "-I", ENGINE] + defs + san + ["-c", os.path.join(d, "harness.c"), "-o", ho], timeout=300)
     if rc != 0: raise EngineError("native harness build failed: " + se[-2000:])
     tag = compiler.replace("+", "p") + ("-san" if sanitize else "")
-    rt = slot.path("native", "native_rt-%s.o" % tag)
-    hd = slot.path("native", "native_handler-%s.o" % tag)
+    rt = slot.path("native", "native_rt-%s-%s.o" % (tag, engine_hash()))
+    hd = slot.path("native", "native_handler-%s-%s.o" % (tag, engine_hash()))
     lk = slot.locked("native-" + tag)
     try:
         if not os.path.exists(rt):
